@@ -13,6 +13,9 @@ pub struct Schema {
     pub directives: BTreeMap<String, MDirectiveDef>,
     pub directive_order: Vec<String>,
     pub schema_def: Option<MSchemaDef>,
+    /// (object type, field) pairs whose type is a covariant narrowing of the interface field's type: the
+    /// operation generator never selects them with the object as parent (same response key, other shape)
+    pub narrowed: BTreeSet<(String, String)>,
 }
 
 fn iv(name: &str, ty: MType, default: Option<MValue>) -> MInputValue {
@@ -113,7 +116,7 @@ impl Schema {
                 _ => {}
             }
         }
-        Schema { types, order, directives, directive_order, schema_def }
+        Schema { types, order, directives, directive_order, schema_def, narrowed: BTreeSet::new() }
     }
 
     pub fn root(&self, op: OpType) -> Option<String> {
